@@ -10,18 +10,37 @@ PLAN = dict(
     ),
     rule=("a case is one model entry M (all eleven required variables, each optional one with probability 1/2, "
           "every fourth model all 23) together with 5 independent call histories that realise M on 5 fresh "
-          "Summary::new() instances: per-variable set_*/push_* sequences with overwritten earlier values, "
-          "repetitions, lists built by set, by push or by set-then-push, merged in a random interleaving. Each "
-          "history's getters and printed text are compared with the 23-variable reference model "
-          "(harness/src/oracle/summary.rs), the five texts with each other, then the text is parsed back "
-          "(getters = M) and the canonical text is parsed and printed (byte identity, with and without the final "
-          "newline). A second workload puts one awkward value class (empty, '=', leading/trailing blanks, VAR= "
-          "look-alike, 2/3/4-byte UTF-8) into every string and multi-line variable in turn, a third sweeps extreme "
-          "sizes over FILE_SIZE x SIZE_PKG. Non-trivial = at least one optional variable set and at least one "
-          "awkward value (empty, contains '=', non-ASCII, blank at either end, control character, negative or "
-          "> 2^53 size); distinct = distinct canonical text of M by 64-bit fingerprint."),
-    exhaustive={"quick": "value class x variable sweep: 5 awkward classes x 21 string/multi-line variables x 8 rounds; 9 x 9 extreme size pairs",
-                "thorough": "value class x variable sweep: 5 awkward classes x 21 string/multi-line variables x 64 rounds; 9 x 9 extreme size pairs"},
+          "instances (Summary::new(), one Summary::default()): per-variable set_*/push_* sequences with overwritten "
+          "earlier values, repetitions, lists built by set, by push or by set-then-push, merged in a random "
+          "interleaving. In four of the five histories observation calls are interleaved with the mutating calls "
+          "(sparsely, directly before every push_* and after every set_* of a multi-line variable, or - one model in "
+          "four - a print after every single call): to_string / format! twice, all 23 getters, is_completed, clone "
+          "and continue on the clone (the original must still print its old state at the end), clone-print-drop, "
+          "Debug/pkgbase/pkgversion/description_as_str (called, not compared), and printing through a SummaryStream "
+          "that holds just this entry; every such observation is compared with the reference model as it is at "
+          "that point of the history, then the history goes on. At the end each history's getters and printed text "
+          "are compared with the 23-variable reference model (harness/src/oracle/summary.rs), the five texts with "
+          "each other, then the text is parsed back (getters = M) and the canonical text is parsed and printed "
+          "(byte identity, with and without the final newline). Values: any text without CR/LF (empty, '=', "
+          "leading/trailing blanks, VAR= look-alikes, 2/3/4-byte UTF-8, control characters) mixed with per-variable "
+          "dictionaries of plausible real-world content (PKGPATH 'cat/pkg', '../../cat/pkg', './cat/pkg', "
+          "'cat/pkg/'; PKGNAME with '-' in odd places, 'nb' suffixes, '.tgz'; dependency patterns; FILE_NAME; URLs; "
+          "licence expressions; dates; numbers such as '007', '1.10', '+5' in string fields), generic special "
+          "tokens (booleans, quotes, escapes, '#', '$VAR', BOM / zero-width / NBSP, case-folding and normalisation "
+          "traps, the 23 variable names themselves) and 25 decorations of them (BOM, './', '../../' or '/' prefix; "
+          "'/', '.tgz', blank, NBSP, 'nb0' suffix; case change; quotes; doubling ...); multi-line lists sometimes "
+          "repeat a member. Further workloads: one awkward value class in every string and multi-line variable in "
+          "turn; every dictionary value x every decoration, and every generic token and variable name plain and "
+          "decorated once, in every string and multi-line variable (enumerated); long values (64 bytes - 8 KiB "
+          "around powers of two and other plausible limits, characters of one width at every byte alignment); "
+          "histories that continue a *parsed* entry (parse the canonical text of a complete entry B, optionally "
+          "print it, then 1-6 or a full history of further set_*/push_* calls with observations in between: the "
+          "end state is B overlaid with the calls); extreme sizes over FILE_SIZE x SIZE_PKG. Non-trivial = at "
+          "least one optional variable set and at least one awkward value (empty, contains '=', non-ASCII, blank "
+          "at either end, control character, negative or > 2^53 size); distinct = distinct canonical text of M "
+          "by 64-bit fingerprint."),
+    exhaustive={"quick": "value class x variable sweep: 5 awkward classes x 21 string/multi-line variables x 8 rounds; typed sweep: every value of each variable's own dictionary x 26 decorations, every generic token and variable-name spelling plain and once decorated, one value of every other variable's dictionary, in each of the 21 string/multi-line variables; 9 x 9 extreme size pairs",
+                "thorough": "value class x variable sweep: 5 awkward classes x 21 string/multi-line variables x 64 rounds; the typed sweep x 6 rounds; 9 x 9 extreme size pairs"},
     assumptions=[
         "the reference table in harness/src/oracle/summary.rs (23 names in pkg_summary order, kinds, eleven required) is a faithful reading of the statement and pkg_summary(5)",
         "the binding between table indices and the public getters/setters in harness/src/mon/c07.rs is right (a wrong binding would show up as a violation on the unchanged tree, it cannot hide one)",
@@ -36,5 +55,7 @@ PLAN = dict(
     not_explored=["values containing CR or LF (outside the property's quantifier; str::lines would split them)",
                   "set_* of a multi-line variable with an empty slice (the statement speaks of non-empty line lists)",
                   "entries lacking a required variable (C08 covers acceptance; C07 quantifies over complete entries)",
-                  "call histories longer than ~100 calls or values longer than a few hundred bytes"],
+                  "call histories longer than ~100 mutating calls (plus interleaved observations) or values longer than ~8 KiB",
+                  "typed values outside the dictionaries in harness/src/gen/summary.rs (the dictionaries are hand-written, not taken from a real pkg_summary file)",
+                  "observation through a SummaryStream is compared only while the entry is complete; Debug output and the derived getters pkgbase/pkgversion/description_as_str are called between mutations but their results are not compared here (C18 owns pkgbase/pkgversion)"],
 )
